@@ -104,7 +104,7 @@ def resample_to_approx_dt(asig, target_dt=0.01, even=True):
         factor = int(np.ceil(factor))
     else:
         factor = 1 / np.floor(1 / factor)
-    new_npts = factor * asig.npts
+    new_npts = int(factor * asig.npts)  # scipy's resample needs an integer number of points
     if even:
         new_npts = 2 * int(new_npts / 2)
     acc_interp = resample(asig.values, new_npts)
